@@ -95,6 +95,9 @@ def make_merge_check(pid):
         oc = merge_family.evaluate(pid, cases)
         if pid in ('C01', 'C02', 'C03', 'C04', 'C06'):
             merge_family.history_level(oc, pid, cases)
+        if pid == 'C05':
+            from . import coll_family
+            coll_family.fault_collections_check(oc, tier)
         if pid == 'C07':
             # the collection's `completed`, before and after its merge, and collections over re-used readers
             from . import coll_family
